@@ -238,14 +238,13 @@ Section Run.
   Qed.
 
   Lemma w_box_ok boxline : dump_lattice_gro box = Ok boxline ->
-    w_box (st_c (length file_c)) = Ok (with_file (st_c (length file_c)) (file_c ++ boxline)).
+    w_box (st_c (length file_c)) = Ok (with_file (st_c (length file_c)) (file_c ++ boxline ++ [NL])).
   Proof. intros H. unfold w_box. cbn [wbox st_c]. rewrite H. cbn [bind]. rewrite fwrite_end by reflexivity. reflexivity. Qed.
 
   (* the bytes after each prefix of the close operations *)
   Lemma close_prefixes boxline : dump_lattice_gro box = Ok boxline ->
     (exists st, w_run (st_w recs) [OpCount] = Ok st /\ wf st = file_c) /\
     (exists st, w_run (st_w recs) [OpCount; OpSeek] = Ok st /\ wf st = file_c) /\
-    (exists st, w_run (st_w recs) [OpCount; OpSeek; OpBox] = Ok st /\ wf st = file_c ++ boxline) /\
     (exists st, w_run (st_w recs) close_ops = Ok st /\ wf st = file_c ++ boxline ++ [NL]).
   Proof.
     intros Hb. destruct w_count_ok as [p Hc].
@@ -254,11 +253,7 @@ Section Run.
     - exists (st_c p). cbn [w_run w_step]. rewrite Hcl, Hc. auto.
     - exists (st_c (length file_c)). cbn [w_run w_step]. rewrite Hcl, Hc. cbn [bind st_c wclosed].
       rewrite w_seek_ok. auto.
-    - eexists. cbn [w_run w_step]. rewrite Hcl, Hc. cbn [bind st_c wclosed].
-      rewrite w_seek_ok. cbn [bind st_c wclosed]. rewrite (w_box_ok _ Hb). cbn [bind]. split; reflexivity.
     - eexists. unfold close_ops. cbn [w_run w_step]. rewrite Hcl, Hc. cbn [bind st_c wclosed].
-      rewrite w_seek_ok. cbn [bind st_c wclosed]. rewrite (w_box_ok _ Hb).
-      cbn [bind with_file wclosed st_c]. rewrite fwrite_end by reflexivity.
-      cbn [with_file wf]. split; [reflexivity|]. rewrite <- app_assoc. reflexivity.
+      rewrite w_seek_ok. cbn [bind st_c wclosed]. rewrite (w_box_ok _ Hb). cbn [bind]. split; reflexivity.
   Qed.
 End Run.
